@@ -19,9 +19,13 @@ def plan(tier, seed):
                         continue
                     units.append(dict(hfile='verbatim.py', fname='c11', args=(ci, fi, n, user)))
         units.append(dict(hfile='verbatim.py', fname='c11_without_option', args=(ci,)))
+        # user-chosen names that collide with names the parser treats specially
+        for nm in ('equation', 'align*', 'math', 'itemize', 'document', 'tabular', 'displaymath'):
+            for fi, n in ((0, 2), (3, 1), (4, 1), (14, 1), (11, 1)):
+                units.append(dict(hfile='verbatim.py', fname='c11', args=(ci, fi, n, nm)))
     return dict(units=units,
                 bounds={'body': 'FREE(0..%d) over all code points except NUL/DEL under the stated side conditions; %d hostile fragments + FREE' % (nmax, nfrag - 1),
-                        'names': 'the 5 built-in names; symbolic user names (1%s letters) through skip_envs' % ('' if tier == 'quick' else '-2'),
+                        'names': 'the 5 built-in names; symbolic user names (1%s letters) and user names that collide with math/list environment names, through skip_envs' % ('' if tier == 'quick' else '-2'),
                         'contexts': 'top level, between text, inside one and two named environments (with arguments), after a comment / before math'},
                 outside=['verbatim inside groups, arguments or items', 'bodies containing the full closing \\end{name}'],
                 assumptions=['side conditions of the statement are assumptions on the symbolic body (first non-blank char not { or [, not ending in a backslash, no % on the last line)'])
